@@ -292,6 +292,54 @@ func c03R3(c *Ctx) {
 			c.check(okZero, "nextBuffer/new-chunk-resets-cursor", c.ipos(sel), "a new chunk resets the cursor to 0", "a new chunk does not reset the cursor")
 		}
 	})
+	// while unread bytes of the current chunk remain, nothing replaces it: no store to nextBuf (and so no receive from the
+	// queue into it) lies where nextBuf != nil and nextIdx < len(nextBuf) both hold
+	for _, nm := range []string{"trzszBuffer.nextBuffer", "trzszBuffer.popBuffer"} {
+		g := c.fn(nm)
+		reach := blocksUnder(g, []assumption{
+			{val: false, cmp: func(op token.Token, x, y ssa.Value) (bool, bool) { // nextBuf == nil is false
+				if (op != token.EQL && op != token.NEQ) || !isNilConst(y) || !isFieldLoad("nextBuf")(x) {
+					return false, false
+				}
+				return true, op == token.EQL
+			}},
+			{truth: func(op token.Token, x, y ssa.Value) (bool, bool) { // nextIdx < len(nextBuf) holds
+				if isLenOf(x, isFieldLoad("nextBuf")) && isFieldLoad("nextIdx")(y) {
+					// written the other way round: len(nextBuf) > nextIdx
+					x, y = y, x
+					op = map[token.Token]token.Token{token.LSS: token.GTR, token.GTR: token.LSS, token.LEQ: token.GEQ, token.GEQ: token.LEQ, token.EQL: token.EQL, token.NEQ: token.NEQ}[op]
+				}
+				if !isFieldLoad("nextIdx")(x) || !isLenOf(y, isFieldLoad("nextBuf")) {
+					return false, false
+				}
+				switch op {
+				case token.LSS, token.LEQ, token.NEQ:
+					return true, true
+				case token.GEQ, token.GTR, token.EQL:
+					return true, false
+				}
+				return false, false
+			}},
+		})
+		eachInstr(g, func(in ssa.Instruction) {
+			switch x := in.(type) {
+			case *ssa.Select:
+				for _, st := range x.States {
+					if st.Send == nil {
+						if _, fld, ok := fieldOf(st.Chan); ok && fld == "bufCh" {
+							c.check(!reach[in.Block()], c.fnName(g)+"/no-fetch-over-a-remainder", c.ipos(in), "the queue is consulted only when the current chunk is used up", "a new chunk can be taken from the queue while unread bytes of the current one remain: they are lost")
+						}
+					}
+				}
+			case *ssa.UnOp:
+				if x.Op == token.ARROW {
+					if _, fld, ok := fieldOf(x.X); ok && fld == "bufCh" {
+						c.check(!reach[in.Block()], c.fnName(g)+"/no-fetch-over-a-remainder", c.ipos(in), "the queue is consulted only when the current chunk is used up", "a new chunk can be taken from the queue while unread bytes of the current one remain: they are lost")
+					}
+				}
+			}
+		})
+	}
 	// every replacement of the current chunk restarts the cursor before the function returns
 	nSwap := 0
 	for _, g := range c.AllFns {
@@ -452,6 +500,26 @@ func c03R4(c *Ctx) {
 	c.check(nSend == 1 && !other, "addBuffer/unconditional-send", c.pos(ab.Pos()), "every chunk handed to the buffer is queued (blocking send, no drop path)", "a chunk handed to the stream buffer can be dropped (conditional / non-blocking queueing)")
 	// addReceivedData queues exactly the slice it was given (no copy is relied upon, none is needed)
 	ar := c.fn("trzszTransfer.addReceivedData")
+	{
+		// and it always queues it — unless the transfer has stopped reading, or the bytes are in-band ones after the
+		// tunnel was agreed (the two drops C05-R9 / C17-R5 prove): no other exit without the enqueue
+		hitQ, pathQ := reachFromE(ar.Blocks[0], 0, isReturn, func(in ssa.Instruction) bool {
+			ci, ok := in.(ssa.CallInstruction)
+			return ok && calleeID(ci.Common()) == "(*trzsz.trzszBuffer).addBuffer"
+		}, func(from, to *ssa.BasicBlock) bool {
+			for _, fc := range edgeFactsTo(from, to) {
+				if call, _ := callOf(fc.V); call != nil && fc.Pol && isAtomicOnField(call, "stopped", "Load") {
+					return true
+				}
+				if !fc.Pol && isVar("tunnel")(fc.V) {
+					// in-band bytes: legitimate only together with tunnelConnected (checked by C17-R5)
+					return true
+				}
+			}
+			return false
+		})
+		c.check(hitQ == nil, "addReceivedData/always-queues", c.pos(ar.Pos()), "received bytes are queued unless the transfer stopped reading or they are in-band bytes of a tunnelled transfer", "received bytes can be dropped silently (an exit without queueing them that is neither the stop nor the in-band drop)", c.pathStr(pathQ)...)
+	}
 	for _, ci := range callsIn(ar, idIs("(*trzsz.trzszBuffer).addBuffer")) {
 		c.check(isVar("buf")(ci.Common().Args[1]), "addReceivedData/queues-its-argument", c.ipos(ci), "the received slice itself is queued", "addReceivedData queues something other than the slice it was given")
 	}
